@@ -107,16 +107,70 @@ def finalClaims (s : St) : Nat → Nat
       finalClaims s4 fuel + 1
     | _ => 0
 
+/-- all threads / contexts have completed: state line, then the main thread drains and counts the free buffers -/
+def finish (s : St) : List String :=
+  let endl := s!"end num_free={s.numFree.toNat} sendp={s.sendp.toNat} flags={s.flags.toNat} receivep={s.receivep.toNat}"
+  let (s', drained) := finalDrain s 100
+  let extra := finalClaims s' 40
+  [endl, s!"final drained={drained} extra_claims={extra}"]
+
+/-! deep synchronous nesting (`nest` in harness/h_messageq_conc.c): contexts are senders of the same model; "context `t`
+is interrupted immediately before the (`wh`+1)-th atomic operation of its claim by the next context, which runs its whole
+iteration" is just a particular schedule -/
+structure NS where
+  st : St
+  next : Nat
+  last : Nat
+  wh : Nat
+  out : Array String := #[]
+
+def inClaim : SPc → Bool
+  | .idle | .loadedFree _ | .gotPerm | .loaded _ => true
+  | _ => false
+
+/-- context `t` runs claim [write send]; `c` = atomic operations of its claim performed so far -/
+def nestCtx : Nat → NS → Nat → Nat → NS
+  | 0, ns, _, _ => { ns with out := ns.out.push "!! STEP-LIMIT" }
+  | fuel + 1, ns, t, c =>
+    match ns.st.senders[t]? with
+    | none => ns
+    | some pc =>
+      let ic := inClaim pc
+      let ns1 := if ic && c == ns.wh && ns.next < ns.last then nestCtx fuel { ns with next := ns.next + 1 } ns.next 0 else ns
+      let s' := step ns1.st (.sender t false ((t + 1) * 1000))
+      let ns2 := { ns1 with st := s', out := ns1.out ++ (s'.log.map ev).toArray }
+      match s'.senders[t]? with
+      | some .idle => ns2
+      | _ => nestCtx fuel ns2 t (if ic then c + 1 else c)
+
+/-- a holder: claim and keep the buffer -/
+def holdCtx : Nat → NS → Nat → NS
+  | 0, ns, _ => ns
+  | fuel + 1, ns, t =>
+    let s' := step ns.st (.sender t false 0)
+    let ns2 := { ns with st := s', out := ns.out ++ (s'.log.map ev).toArray }
+    match s'.senders[t]? with
+    | some .idle => ns2
+    | some (.hasSlot _ _) => ns2
+    | _ => holdCtx fuel ns2 t
+
+def nestTop : Nat → NS → NS
+  | 0, ns => ns
+  | fuel + 1, ns => if ns.next < ns.last then nestTop fuel (nestCtx 100000 { ns with next := ns.next + 1 } ns.next 0) else ns
+
+def runNest (depth msglen held levels wh : Nat) : List String :=
+  let s0 := init depth msglen (held + levels)
+  let ns0 : NS := { st := s0, next := held, last := held + levels, wh := wh }
+  let ns1 := (List.range held).foldl (fun ns t => holdCtx 16 ns t) ns0
+  let ns2 := nestTop (levels + 1) ns1
+  ns2.out.toList ++ finish ns2.st
+
 def runSchedule (d : D) (toks : List String) : D × List String :=
   let (d1, out1) := toks.foldl (fun (acc : D × List String) tok =>
       let (d', o) := runToken acc.1 tok; (d', acc.2 ++ o)) (d, [])
   let (d2, out2) := (List.range (d.n + 1)).foldl (fun (acc : D × List String) t =>
       let (d', o) := drainThread acc.1 t 100000; (d', acc.2 ++ o)) (d1, out1)
-  let s := d2.st
-  let endl := s!"end num_free={s.numFree.toNat} sendp={s.sendp.toNat} flags={s.flags.toNat} receivep={s.receivep.toNat}"
-  let (s', drained) := finalDrain s 100
-  let extra := finalClaims s' 40
-  (d2, out2 ++ [endl, s!"final drained={drained} extra_claims={extra}"])
+  (d2, out2 ++ finish d2.st)
 
 def parseProg (p : String) : Option (Bool × Nat) :=
   if p = "h" then some (true, 1)
@@ -134,6 +188,11 @@ def stepLine (d : D) (w : List String) : D × List String :=
       ({ ok := true, st := init (nat! depth) (nat! msglen) ps.length, depth := nat! depth, progs := ps,
          rtries := nat! rtries, poll := nat! poll != 0, iters := List.replicate (ps.length + 1) 0 }, ["ok"])
     else ({}, ["bad-cfg"])
+  | ["nest", depth, msglen, held, levels, wh] =>
+    if natOk depth && natOk msglen && natOk held && natOk levels && natOk wh && nat! depth ≥ 1 && nat! depth ≤ 32
+       && nat! msglen ≥ 4 && nat! msglen ≤ 4096 && nat! held ≤ nat! depth && nat! levels ≥ 1 && nat! held + nat! levels ≤ 1024 && nat! wh ≥ 1 then
+      ({}, "ok" :: runNest (nat! depth) (nat! msglen) (nat! held) (nat! levels) (nat! wh))
+    else ({}, ["bad-nest"])
   | "run" :: toks =>
     if d.ok then
       -- every `run` starts from a freshly initialised queue, like the harness
